@@ -329,5 +329,6 @@ VERIF_HARNESS(h_assoc_sets) { sets(); }
 //@harness h_assoc_iteration_second param n=4 tier=thorough loop=80 wall=900
 //@harness h_assoc_lookup param n=4 tier=thorough loop=80 wall=900
 //@harness h_assoc_projections param n=4 tier=thorough loop=80 wall=900
-//@harness h_assoc_sets param na=3 param nb=0..3 tier=thorough loop=80 wall=900
+//@harness h_assoc_sets param na=3 param nb=0..2 tier=thorough loop=80 wall=900
 //@harness h_assoc_sets param na=0..2 param nb=3 tier=thorough loop=80 wall=900
+// (na = nb = 3: more than 11000 key orders, not decided within 900 s - not claimed)
